@@ -1,7 +1,7 @@
 (* C18: FileSync, bytes to bytes. *)
 From Coq Require Import String Ascii List Bool Arith Lia.
 From KV Require Import Lib.Str Lib.ODict Model.PreserveCore Model.Preserve Gen.Tags
-                       Proofs.StrProofs Proofs.PreserveCoreProofs Proofs.PreserveStr.
+                       Proofs.StrProofs Proofs.PreserveCoreProofs Proofs.PreserveStr Proofs.CleanProofs.
 Import ListNotations.
 Open Scope string_scope.
 Open Scope list_scope.
@@ -31,26 +31,25 @@ Definition tags_of (a : string) : list (string * list string) := collect (read_l
    cleaned name is a tag of A replaced by A's body; every other line of B (text outside pairs, the tag lines
    themselves, bodies of pairs that exist only in B) is kept byte for byte, in order. *)
 Theorem sync_bytes a (B : list bitem_s) :
-  lines_okb (bflatten_s B) = true -> keys_pfx_s (tags_of a) -> Forall (wf_bitem_s (tags_of a)) B ->
+  lines_okb (bflatten_s B) = true -> Forall (wf_bitem_s (tags_of a)) B ->
   file_sync a (concat_lines (bflatten_s B)) = concat_lines (synced_s (tags_of a) B).
 Proof.
-  intros Hl Hk Hwf. unfold file_sync. rewrite (read_concat _ Hl). f_equal. unfold emplace.
+  intros Hl Hwf. assert (Hk : keys_pfx_s (tags_of a)) by (apply collect_keys_have_prefix). unfold file_sync. rewrite (read_concat _ Hl). f_equal. unfold emplace.
   apply (sync_spec String.eqb eqb_spec_str tab4 is_tag kof sub_of kpfx vis nl nl ""); assumption.
 Qed.
 
 (* C18_idempotent *)
 Theorem sync_idempotent a (B : list bitem_s) :
-  lines_okb (bflatten_s B) = true -> keys_pfx_s (tags_of a) -> Forall (wf_bitem_s (tags_of a)) B ->
+  lines_okb (bflatten_s B) = true -> Forall (wf_bitem_s (tags_of a)) B ->
   bodies_ok_s (tags_of a) -> lines_okb (synced_s (tags_of a) B) = true ->
   let b1 := file_sync a (concat_lines (bflatten_s B)) in
   file_sync a b1 = b1.
 Proof.
-  intros Hl Hk Hwf Hb Hl2 b1. unfold b1. rewrite (sync_bytes a B Hl Hk Hwf).
+  intros Hl Hwf Hb Hl2 b1. unfold b1. rewrite (sync_bytes a B Hl Hwf).
   pose proof (bflatten_resync String.eqb kof (tags_of a) B) as E.
   rewrite <- E at 1.
   rewrite sync_bytes.
   - rewrite synced_resync. reflexivity.
   - rewrite E. assumption.
-  - assumption.
   - apply wf_resync; assumption.
 Qed.
